@@ -455,6 +455,10 @@ def check_special(case):
     text = 'MSH|^~\\&|A|B|C|D|20200101||%s|1|P|%s' % (S.msh9_text(v, m, R.DEFAULT_EC), v)
     for what, fn in (('Message', lambda: Message(m, version=v, reference=other)), ('parse_message', lambda: P.parse_message(text, message_profile=other)),
                      ('Message:empty-profile', lambda: Message(m, version=v, reference={})),
+                     ('Message:lower-case', lambda: Message(m.lower(), version=v, reference=other)),
+                     ('Message:capitalised', lambda: Message(m.capitalize(), version=v, reference=other)),
+                     ('Message:lower-case:empty-profile', lambda: Message(m.lower(), version=v, reference={})),
+                     ('parse_message:lower-case', lambda: P.parse_message(text.replace(S.msh9_text(v, m, R.DEFAULT_EC), S.msh9_text(v, m, R.DEFAULT_EC).lower()), message_profile=other)),
                      ('parse_message:empty-profile', lambda: P.parse_message(text, message_profile={}))):
         try:
             fn()
